@@ -186,6 +186,11 @@ func consumeMapOfMessage(b []byte, mapv reflect.Value, wtyp protowire.Type, mapi
 	var (
 		key = mapi.keyZero
 		val = reflect.New(f.mi.GoReflectType.Elem())
+		// The value field may occur several times; the occurrences are
+		// merged. The merged value is known to be initialized only if a
+		// value was seen and every occurrence was initialized by itself.
+		seenValue      = false
+		allInitialized = true
 	)
 	for len(b) > 0 {
 		num, wtyp, n := protowire.ConsumeTag(b)
@@ -218,10 +223,9 @@ func consumeMapOfMessage(b []byte, mapv reflect.Value, wtyp protowire.Type, mapi
 			}
 			var o unmarshalOutput
 			o, err = f.mi.unmarshalPointer(v, pointerOfValue(val), 0, opts)
-			if o.initialized {
-				// Consider this map item initialized so long as we see
-				// an initialized value.
-				out.initialized = true
+			seenValue = true
+			if !o.initialized {
+				allInitialized = false
 			}
 		}
 		if err == errUnknown {
@@ -236,6 +240,7 @@ func consumeMapOfMessage(b []byte, mapv reflect.Value, wtyp protowire.Type, mapi
 	}
 	mapv.SetMapIndex(mapi.conv.keyConv.GoValueOf(key), val)
 	out.n = n
+	out.initialized = seenValue && allInitialized
 	return out, nil
 }
 
